@@ -3,6 +3,7 @@ import SamVerif.Lemmas.CommentQueue
 import SamVerif.Lemmas.Imports
 import SamVerif.Model.Attach
 import SamVerif.Lemmas.ExprDoc
+import SamVerif.Lemmas.CommentText
 /-!
 # C09 — Formatting is idempotent and keeps every comment
 
@@ -743,3 +744,73 @@ theorem expression_layout_width_irrelevant (w₁ w₂ : Nat) (e : AExpr) :
   rw [expression_layout_text, expression_layout_text]
 
 end SamVerif.ExprDoc
+
+namespace SamVerif.CommentText
+open SamVerif.Doc (isWs)
+
+/-! ## Comment text normalisation (`post_process_block_comment`) against the printer's re-flow
+
+Tied by protocol `ctext` (the real lexer's comment text vs `postProcess` on generated bodies). -/
+
+/-- **Reading back a re-flowed line gives its words**: a continuation line written by the printer —
+indentation, ` * `, words separated by one blank — is read by the lexer as exactly those words, whatever
+the words are (they may start or end with `*`, `/`, …): one star is decoration, everything after it is
+text. (The seeded variant that strips every leading star falsifies this for `*kwargs`.) -/
+theorem stripLine_reflowLine (indent : Nat) (ws : List Str) (hne : ws ≠ []) (hw : ∀ w ∈ ws, Word w) :
+    stripLine (reflowLine indent ws) = joinSp ws := by
+  have hsp : isWs ' ' = true := by decide
+  have hstar : isWs '*' = false := by decide
+  have h1 : trimStart (reflowLine indent ws) = '*' :: ' ' :: joinSp ws := by
+    unfold trimStart reflowLine
+    rw [List.append_assoc, dropWhile_replicate_sp]
+    simp [List.dropWhile, hsp, hstar]
+  unfold stripLine
+  rw [h1]
+  exact trim_sp_joinSp ws hne hw
+
+example : stripLine (reflowLine 3 [['*', 'k'], ['*', '*', 'u', '*', '*'], ['*']]) =
+    ['*', 'k', ' ', '*', '*', 'u', '*', '*', ' ', '*'] := by decide
+
+/-- Full-strength statement for the opener's own line (`/* text */`): `stripLine (' ' :: joinSp ws ++ [' '])
+= joinSp ws`. It is **false** for the code as it stands: a text that begins with `*` loses that star
+(known finding C09-F9). -/
+theorem stripLine_opener_counterexample :
+    ¬ ∀ ws : List Str, ws ≠ [] → (∀ w ∈ ws, Word w) → stripLine (' ' :: joinSp ws ++ [' ']) = joinSp ws := by
+  intro h
+  have := h [['*', 'k']] (by simp) (by
+    intro w hw
+    simp at hw; subst hw
+    exact ⟨by simp, by intro c hc; simp at hc; rcases hc with rfl | rfl <;> decide⟩)
+  revert this
+  decide
+
+/-- … and holds whenever the text does not begin with `*`. -/
+theorem stripLine_opener_partial (w : Str) (rest : List Str) (hw : ∀ x ∈ w :: rest, Word x)
+    (hstar : w.head? ≠ some '*') :
+    stripLine (' ' :: joinSp (w :: rest) ++ [' ']) = joinSp (w :: rest) := by
+  have hsp : isWs ' ' = true := by decide
+  obtain ⟨c, r, hj, hc⟩ := joinSp_head w rest (hw w (by simp))
+  obtain ⟨r', c', hj', hc'⟩ := joinSp_last (w :: rest) (by simp) hw
+  have hcne : c ≠ '*' := by
+    intro he; subst he
+    obtain ⟨hwne, _⟩ := hw w (by simp)
+    cases w with
+    | nil => exact hwne rfl
+    | cons a b =>
+      cases rest <;> simp [joinSp] at hj <;> simp_all
+  have h1 : trimStart (' ' :: joinSp (w :: rest) ++ [' ']) = c :: r ++ [' '] := by
+    rw [hj]; simp [trimStart, List.dropWhile, hsp, hc]
+  unfold stripLine
+  rw [h1]
+  have hte : trimEnd (c :: r ++ [' ']) = c :: r := by
+    rw [← hj, hj']
+    simp [trimEnd, List.dropWhile, hsp, hc']
+  split
+  · rename_i r2 heq
+    simp at heq
+    exact absurd heq.1 hcne
+  · rw [hte, hj]
+
+example : stripLine (' ' :: joinSp [['a'], ['*', 'b']] ++ [' ']) = joinSp [['a'], ['*', 'b']] := by decide
+
+end SamVerif.CommentText
